@@ -165,10 +165,30 @@ def r2(ctx, vfns):
         if len(conds) == 1:
             c = list(conds.values())[0]
             if len(c) == 1 and c[0][0] == 'bin' and c[0][1] == 'Ne':
-                s = show(c[0])
-                good = mentions_call(c[0], '*::network') and any(x[0] == 'upvar' and x[1] == 'network' for x in walk(c[0]))
+                # the two networks themselves are compared, not a coarser image of them (a conversion that
+                # merges testnet and regtest lets one answer for the other)
+                sides = (c[0][2], c[0][3])
+                is_state_net = lambda x: isinstance(x, tuple) and x[0] == 'call' and x[1].endswith('::network') and len(x[2]) == 1 and x[2][0][0] in ('param', 'upvar')
+                is_req = lambda x: isinstance(x, tuple) and x[0] == 'upvar' and x[1] == 'network'
+                good = (is_state_net(sides[0]) and is_req(sides[1])) or (is_state_net(sides[1]) and is_req(sides[0]))
         ctx.check(good, 'R2', 'verify_network', cl, 'panics exactly under state.network() != requested network',
                   'verify_network panic condition is %s' % list(conds.keys()))
+    # the request's network name maps to the network of the same name (both spellings)
+    conv = [f for f in prog.fns.values() if f.short == '<ic_btc_interface::Network as core::convert::From>::from' and f.kind != 'Closure'
+            and f.locals[1]['ty'].get('adt') == 'ic_btc_interface::NetworkInRequest']
+    if len(conv) != 1:
+        ctx.unknown('R2', 'request-network-conversion', '', 'From<NetworkInRequest> for Network not found')
+    else:
+        from sa.util import table as _table
+        ctx.touch(conv[0])
+        got = {}
+        for _, v, cs in _table(prog, conv[0]):
+            if v[0] == 'agg' and len(cs) == 1 and cs[0][0] == 'is':
+                for lab in cs[0][2]:
+                    got[lab] = v[3]
+        want = {'Mainnet': 'Mainnet', 'mainnet': 'Mainnet', 'Testnet': 'Testnet', 'testnet': 'Testnet', 'Regtest': 'Regtest', 'regtest': 'Regtest'}
+        ctx.check(got == want, 'R2', 'request-network-conversion', conv[0], 'NetworkInRequest -> Network maps every spelling to the network of the same name',
+                  'NetworkInRequest -> Network is %s' % got)
     # --- verify_synced
     cl = the_closure(prog, vfns['synced'], ctx, 'R2')
     if cl:
@@ -238,6 +258,27 @@ def r5(ctx):
     from sa.util import table, find_locals, is_var, describe_table
     from sa.expr import ex
     prog = ctx.prog
+    # every announced header of a response is considered: one that is already tracked is skipped, it does
+    # not end the batch (the new headers behind it raise the height the sync gate reads)
+    inh = ctx.fn('R5', 'ic_btc_canister::state::insert_next_block_headers')
+    if inh:
+        from sa.expr import switch_info
+        g_ = cfg(inh)
+        sw = None
+        for bi, b in enumerate(inh.blocks):
+            if b['term']['k'] == 'switch' and not b.get('cleanup'):
+                e_, kind, labels, _ = switch_info(prog, inh, bi)
+                if kind == 'bool' and P.call('*::has_next_block_header', P.anything, P.anything)(e_):
+                    sw = (bi, b['term'], labels)
+        if sw is None:
+            ctx.unknown('R5', 'known-header-skipped', inh, 'test for an already tracked header not found in insert_next_block_headers')
+        else:
+            bi, t, labels = sw
+            h = g_.in_loop(bi)
+            true_tgt = [x for v, x in t['targets'] if labels.get(v) is True] or [t['otherwise']]
+            ok = h is not None and g_.reaches(true_tgt[0], h) and not any(inh.blocks[x]['term']['k'] == 'return' for x in g_.reachable_from(true_tgt[0], avoid=(h,)))
+            ctx.check(ok, 'R5', 'known-header-skipped', inh.where(bi), 'an already tracked announced header is skipped and the rest of the batch is still processed',
+                      'an already tracked announced header ends the batch: new headers announced behind it are never recorded, so the sync gate stays open while the canister falls behind')
     GUB = 'ic_btc_canister::unstable_blocks::GenericUnstableBlocks::'
     NB = 'ic_btc_canister::unstable_blocks::next_block_headers::NextBlockHeaders::'
     f = ctx.fn('R5', GUB + 'insert_next_block_header')
